@@ -214,11 +214,55 @@ func Add(a, b Term) Term {
 	if a.S == "0" {
 		return b
 	}
+	if a.Sort == SInt {
+		// (+ (+ x c1) c2) and (- (+ x c1) c2) style folding keeps index terms syntactically equal
+		if cb, ok := litVal(b.S); ok {
+			if h, args := splitApp(a.S); h == "+" && len(args) == 2 {
+				if ca, ok := litVal(args[1]); ok {
+					return Add(Term{args[0], SInt}, IntLit(ca+cb))
+				}
+			}
+			if ca, ok := litVal(a.S); ok {
+				return IntLit(ca + cb)
+			}
+			if cb < 0 {
+				return App(SInt, "-", a, IntLit(-cb))
+			}
+		}
+	}
 	return App(a.Sort, "+", a, b)
+}
+
+func litVal(s string) (int64, bool) {
+	if len(s) == 0 || len(s) > 18 {
+		return 0, false
+	}
+	neg := false
+	t := s
+	if strings.HasPrefix(s, "(- ") && strings.HasSuffix(s, ")") {
+		neg = true
+		t = s[3 : len(s)-1]
+	}
+	var n int64
+	for _, c := range t {
+		if c < '0' || c > '9' {
+			return 0, false
+		}
+		n = n*10 + int64(c-'0')
+	}
+	if neg {
+		n = -n
+	}
+	return n, true
 }
 func Sub(a, b Term) Term {
 	if b.S == "0" {
 		return a
+	}
+	if a.Sort == SInt {
+		if cb, ok := litVal(b.S); ok {
+			return Add(a, IntLit(-cb))
+		}
 	}
 	return App(a.Sort, "-", a, b)
 }
@@ -249,6 +293,15 @@ func Forall(bs []Bound, body Term) Term {
 	if len(bs) == 0 || body.IsTrue() {
 		return body
 	}
+	if pats := inferPatterns(bs, body.S); len(pats) > 0 {
+		var b strings.Builder
+		b.WriteString("(! " + body.S)
+		for _, p := range pats {
+			b.WriteString(" :pattern " + p)
+		}
+		b.WriteString(")")
+		return quant("forall", bs, Term{b.String(), SBool})
+	}
 	return quant("forall", bs, body)
 }
 func Exists(bs []Bound, body Term) Term {
@@ -267,11 +320,55 @@ func quant(q string, bs []Bound, body Term) Term {
 	return Term{b.String(), SBool}
 }
 
+// splitApp splits "(head a1 a2 ...)" into head and top-level arguments.
+func splitApp(s string) (string, []string) {
+	if len(s) < 2 || s[0] != '(' || s[len(s)-1] != ')' {
+		return "", nil
+	}
+	body := s[1 : len(s)-1]
+	var parts []string
+	depth, start, inBar := 0, 0, false
+	for i := 0; i < len(body); i++ {
+		c := body[i]
+		switch {
+		case c == '|':
+			inBar = !inBar
+		case inBar:
+		case c == '(':
+			depth++
+		case c == ')':
+			depth--
+		case c == ' ' && depth == 0:
+			if i > start {
+				parts = append(parts, body[start:i])
+			}
+			start = i + 1
+		}
+	}
+	if start < len(body) {
+		parts = append(parts, body[start:])
+	}
+	if len(parts) == 0 {
+		return "", nil
+	}
+	return parts[0], parts[1:]
+}
+
+// project simplifies (acc (ctor a0 a1 ...)) to a_i.
+func project(acc string, sort Sort, ctor string, i int, t Term) Term {
+	if strings.HasPrefix(t.S, "("+ctor+" ") {
+		if h, args := splitApp(t.S); h == ctor && i < len(args) {
+			return Term{args[i], sort}
+		}
+	}
+	return App(sort, acc, t)
+}
+
 // Slice datatype accessors.
-func SlArr(s Term) Term { return App(SInt, "sl.arr", s) }
-func SlOff(s Term) Term { return App(SInt, "sl.off", s) }
-func SlLen(s Term) Term { return App(SInt, "sl.len", s) }
-func SlCap(s Term) Term { return App(SInt, "sl.cap", s) }
+func SlArr(s Term) Term { return project("sl.arr", SInt, "mk-slice", 0, s) }
+func SlOff(s Term) Term { return project("sl.off", SInt, "mk-slice", 1, s) }
+func SlLen(s Term) Term { return project("sl.len", SInt, "mk-slice", 2, s) }
+func SlCap(s Term) Term { return project("sl.cap", SInt, "mk-slice", 3, s) }
 func MkSlice(arr, off, ln, cp Term) Term {
 	return App(SSlice, "mk-slice", arr, off, ln, cp)
 }
@@ -279,17 +376,17 @@ func MkSlice(arr, off, ln, cp Term) Term {
 var NilSlice = MkSlice(IntLit(0), IntLit(0), IntLit(0), IntLit(0))
 
 // Str datatype accessors.
-func StrData(s Term) Term { return App(ArraySort(SInt), "str.data", s) }
-func StrOff(s Term) Term  { return App(SInt, "str.off", s) }
-func StrLen(s Term) Term  { return App(SInt, "str.len", s) }
+func StrData(s Term) Term { return project("gs.data", ArraySort(SInt), "mk-gstr", 0, s) }
+func StrOff(s Term) Term  { return project("gs.off", SInt, "mk-gstr", 1, s) }
+func StrLen(s Term) Term  { return project("gs.len", SInt, "mk-gstr", 2, s) }
 func MkStr(data, off, ln Term) Term {
-	return App(SStr, "mk-str", data, off, ln)
+	return App(SStr, "mk-gstr", data, off, ln)
 }
 func StrAt(s, i Term) Term { return Select(StrData(s), Add(StrOff(s), i)) }
 
 // Iface datatype accessors.
-func IfDyn(s Term) Term { return App(SInt, "if.dyn", s) }
-func IfVal(s Term) Term { return App(SInt, "if.val", s) }
+func IfDyn(s Term) Term { return project("if.dyn", SInt, "mk-iface", 0, s) }
+func IfVal(s Term) Term { return project("if.val", SInt, "mk-iface", 1, s) }
 func MkIface(dyn, val Term) Term {
 	return App(SIface, "mk-iface", dyn, val)
 }
@@ -297,6 +394,6 @@ func MkIface(dyn, val Term) Term {
 var NilIface = MkIface(IntLit(0), IntLit(0))
 
 const smtPrelude = `(declare-datatypes ((Slice 0)) (((mk-slice (sl.arr Int) (sl.off Int) (sl.len Int) (sl.cap Int)))))
-(declare-datatypes ((Str 0)) (((mk-str (str.data (Array Int Int)) (str.off Int) (str.len Int)))))
+(declare-datatypes ((Str 0)) (((mk-gstr (gs.data (Array Int Int)) (gs.off Int) (gs.len Int)))))
 (declare-datatypes ((Iface 0)) (((mk-iface (if.dyn Int) (if.val Int)))))
 `
